@@ -186,6 +186,15 @@ def matchList (scored : List (Nat × Option Nat)) : List (Nat × Nat) :=
 
 /-! ### `MultiPattern` (`src/pattern.rs`) -/
 
+/-- `MultiPattern::score`: the column patterns zipped with the item's column texts (the shorter list ends the loop), `?`
+    on a column that does not match, scores summed -/
+def multiEval (cfg : Cfg) (ext : Ext) : List (List Atom) → List (Rep × List Nat) → Option Nat
+  | p :: ps, h :: hs =>
+    match patternEval p cfg ext h.1 h.2 with
+    | none => none
+    | some r => (multiEval cfg ext ps hs).map (r.1 + ·)
+  | _, _ => some 0
+
 inductive PStatus | unchanged | update | rescore
 deriving DecidableEq, Repr, Inhabited
 
